@@ -225,7 +225,7 @@ fn vec_lifts<T: WInt>(rep: &mut Report, lanes: &[Lane], rows: &[Row], rng: &mut 
 pub const INEXACT: i64 = 888888;
 const INF: i64 = 1073741824;
 
-trait Fl: Copy + PartialOrd + Debug + Clamp + IsBetween<Output = bool> + Wrap + std::ops::Sub<Output = Self> + std::ops::Add<Output = Self> + From<u16> + num_traits::FloatConst + 'static {
+trait Fl: Copy + PartialOrd + Debug + Clamp + IsBetween<Output = bool> + Wrap + std::ops::Sub<Output = Self> + std::ops::Add<Output = Self> + From<u16> + num_traits::FloatConst + num_traits::Zero + num_traits::One + std::ops::Neg<Output = Self> + 'static {
     const NAME: &'static str;
     fn of(x: i64, s: u32) -> Self;
     fn scaled(self, s: u32) -> i64;
@@ -282,7 +282,7 @@ fn drive_float<T: Fl>(out: &mut TraceOut, rng: &mut StdRng, n: usize) {
             "wrapped_between" => {
                 let (lo2, hi2) = match rng.gen_range(0..12) { 0 => (hi, lo), 1 => (lo, lo), 2 => (-1 - lo, hi), _ => (lo, hi) };
                 rec["lo"] = json!(lo2); rec["hi"] = json!(hi2);
-                guarded(|| fx.wrapped_between(T::of(lo2, s), T::of(hi2, s))).map(|v| v.scaled(s)).unwrap_or(PANIC)
+                guarded(|| if i % 12 < 6 { fx.wrapped_between(T::of(lo2, s), T::of(hi2, s)) } else { Wrap::<T>::wrap_between(fx, T::of(lo2, s), T::of(hi2, s)) }).map(|v| v.scaled(s)).unwrap_or(PANIC)
             }
             "pingpong" => {
                 let hi2 = if rng.gen_range(0..12) == 0 { -hi * rng.gen_range(0..2) } else { hi };
@@ -309,6 +309,19 @@ fn drive_float<T: Fl>(out: &mut TraceOut, rng: &mut StdRng, n: usize) {
                 let k = ((d - (fb.to_f64() - fa.to_f64())) / std::f64::consts::TAU).round() as i64;
                 out.emit(json!({"op": "delta_angle", "ty": T::NAME, "s": 16, "x": (fa.to_f64() * 65536.0).round() as i64, "lo": 0,
                     "hi": (fb.to_f64() * 65536.0).round() as i64, "k": k, "r": (d * 65536.0).round() as i64}));
+            }
+            // the fixed-bound forms: clamp to [0,1] and [-1,1] (four aliases), wrap to [0, 2 pi) (two aliases)
+            let one = 1i64 << s;
+            for (k, (lo2, hi2)) in [(0i64, one), (0, one), (-one, one), (-one, one)].iter().enumerate() {
+                let r = guarded(|| match k { 0 => fx.clamped01(), 1 => Clamp::<T>::clamp01(fx), 2 => fx.clamped_minus1_1(), _ => Clamp::<T>::clamp_minus1_1(fx) }).map(|v| v.scaled(s)).unwrap_or(PANIC);
+                out.emit(json!({"op": "clamped", "ty": T::NAME, "s": s, "x": x, "lo": lo2, "hi": hi2, "r": r}));
+            }
+            for k in 0..2 {
+                if let Some(w) = guarded(|| if k == 0 { Wrap::<T>::wrapped_2pi(fa) } else { Wrap::<T>::wrap_2pi(fa) }) {
+                    let w = w.to_f64();
+                    let kk = ((fa.to_f64() - w) / std::f64::consts::TAU).round() as i64;
+                    out.emit(json!({"op": "wrap_2pi", "ty": T::NAME, "s": 16, "x": (fa.to_f64() * 65536.0).round() as i64, "lo": 0, "hi": 0, "k": kk, "r": (w * 65536.0).round() as i64}));
+                }
             }
             // tiny negative input: inexact, only the closed range [0, upper] is demanded
             let tiny = T::of(-1, 9) ; let up = T::of(hi, s);
